@@ -173,7 +173,7 @@ package dagjson
 // ---- the registered codec: links and bytes in their reserved forms, keys sorted bytewise ----
 //@ func Encode(n, w) (err)
 //@   requires n != nil && w != nil
-//@   before Encode assert[C04] carg0.EncodeLinks && carg0.EncodeBytes && carg0.MapSortMode == codec.MapSortMode_Lexical
+//@   before Encode assert[C04] carg0.EncodeLinks && carg0.EncodeBytes && carg0.MapSortMode == codec.MapSortMode_Lexical && carg1 == n && carg2 == w
 // (The canonical stream is positioned so that the root value's encoding starts where the fresh
 // encoder stands: a definition, stated as an explicit assumption.)
 //@ func (EncodeOptions).Encode(n, w) (err)
@@ -182,7 +182,7 @@ package dagjson
 //@   before Marshal assert[C04] carg2 == cfg && carg0 == n
 //@ func Decode(na, r) (err)
 //@   requires na != nil && r != nil && r.teesink == nil
-//@   before Decode assert[C04] carg0.ParseLinks && carg0.ParseBytes
+//@   before Decode assert[C04,C06] carg0.ParseLinks && carg0.ParseBytes && !carg0.DontParseBeyondEnd && carg1 == na && carg2 == r
 // C10: the top-level value is decoded at depth 0.
 //@ func Unmarshal(na, tokSrc, options) (err)
 //@   requires na != nil && tokSrc != nil
